@@ -77,7 +77,7 @@ def run(check):
     for mds in (1200, 1280, 1350, 1452):
         for prof in ("amplify", "lossy", "migrate", "dup"):
             for i in range(n):
-                cfg = {"mds": mds, "chain": rnd.random() < 0.5, "cc": rnd.choice(["reno", "cubic"]),
+                cfg = {"mds": mds, "chain": rnd.random() < 0.5, "smallcert": rnd.random() < 0.3, "cc": rnd.choice(["reno", "cubic"]),
                        "version": rnd.choice(["v1", "v2", "v1->v2"])}
                 jobs.append({"cfg": cfg, "script": script.random_script(rnd, rnd.choice([15, 40, 70]), script.PROFILES[prof]),
                              "seed": rnd.randrange(1 << 30), "hs_adv": rnd.random() < 0.6, "profile": prof})
@@ -92,6 +92,19 @@ def run(check):
         jobs.append({"cfg": {"mds": mds}, "script": [["write", "s", 3, 20000, False], ["deliver", 0], ["rebind"], ["write", "c", 0, 10, False],
                                                      ["deliver", 0], ["deliver", 0], ["timer", "s"], ["timer", "s"]],
                      "seed": 13, "hs_adv": False, "profile": "corpus-migration-while-sending"})
+    # a client that falls silent after its first Initial: the server may only retransmit within 3x what it received,
+    # trailing datagram padding included (small flight: no chain, larger datagrams)
+    for mds in (1200, 1350, 1452):
+        for chain in (False, True, "small"):
+            sc = [["deliver", 0]]
+            for _ in range(7):
+                sc += [["drop", 0], ["drop", 0], ["drop", 0], ["drop", 0], ["timer", "s"]]
+            jobs.append({"cfg": {"mds": mds, "chain": chain is True, "smallcert": chain == "small"}, "script": sc, "seed": 21,
+                         "hs_adv": True, "profile": "corpus-silent-client-server-pto"})
+            # ... and then the server application closes the connection while the budget is used up
+            jobs.append({"cfg": {"mds": mds, "chain": chain is True, "smallcert": chain == "small"},
+                         "script": sc[:16] + [["close", "s", 0], ["drop", 0], ["timer", "s"]], "seed": 22,
+                         "hs_adv": True, "profile": "corpus-silent-client-server-close"})
     results = runner.run_many(job_fn, jobs)
     judge(check, jobs, results, "TraceEmission_V")
     for job, res in zip(jobs, results):
